@@ -188,9 +188,9 @@ class Gen:
             if ch < 0.65:
                 n = self.fresh("c")
                 self.cn.append(n)
-                return ["ccopy %d %d" % (n, c)]
+                return ["%s %d %d" % (self.r.choice(["ccopy", "ccopy", "cmove"]), n, c)]
             if ch < 0.75:
-                return ["casg %d %d" % (c, self.maybe_stale("c", self.cn))]
+                return ["%s %d %d" % (self.r.choice(["casg", "casg", "cmasg"]), c, self.maybe_stale("c", self.cn))]
             if ch < 0.85:
                 if c in self.cn:
                     self.cn.remove(c)
@@ -296,7 +296,7 @@ class Gen:
             if (ch < 0.3 or not self.kn) and self.cn:
                 n = self.fresh("k")
                 self.kn.append(n)
-                return ["knew %d %d" % (n, self.maybe_stale("c", self.cn))]
+                return ["%s %d %d" % (self.r.choice(["knew", "knew", "knewm"]), n, self.maybe_stale("c", self.cn))]
             if not self.kn:
                 return self.connect() if self.sg else self.new_sig()
             kk = self.maybe_stale("k", self.kn)
@@ -569,7 +569,33 @@ def scenario_last_handle(r):
     return " ".join((accs + " ".join(parts) + " M " + " ".join(main)).split())
 
 
-SCENARIOS = [scenario_owner_sweep] * 6 + [scenario_last_handle] * 3 + [scenario_deep_recursion]
+def scenario_blocked_transfers(r):
+    """a blocked (or unblocked) slot taken through every way of copying / moving / assigning / connecting:
+    the blocking state travels with the slot (and leaves a moved-from source), then call, query and emit"""
+    rk = r.choice("iiv")
+    b = 1 if r.random() < 0.8 else 0
+    main = ["snew 1 %s 1 p 0" % rk, "sblock 1 %d" % b]
+    how = r.choice(["scopy", "smove", "sasg-empty", "smasg-empty", "sasg-full", "smasg-full", "chain"])
+    d = 2
+    if how == "scopy":
+        main += ["scopy 2 1"]
+    elif how == "smove":
+        main += ["smove 2 1"]
+    elif how in ("sasg-empty", "smasg-empty"):
+        main += ["sempty 2 %s" % rk, "%s 2 1" % how.split("-")[0]]
+    elif how in ("sasg-full", "smasg-full"):
+        main += ["snew 2 %s 2 p 0" % rk] + (["sblock 2 %d" % (1 - b)] if r.random() < 0.5 else []) + ["%s 2 1" % how.split("-")[0]]
+    else:
+        main += ["smove 2 1", "sempty 3 %s" % rk, "smasg 3 2", "scopy 4 3"]
+        d = 4
+    main += ["sq %d" % d, "sq 1", "scall %d 5 1" % d, "scall 1 6 1"]
+    main += ["gnew 0 %s -1 0" % rk, "gconn 0 %d 1 %d %d" % (d, r.randint(0, 1), r.randint(0, 1)), "gemit 0 3 1", "cq 1", "gq 0",
+             "cblock 1 0", "gemit 0 4 1", "sq %d" % d, "gdel 0", "cdel 1"]
+    main += ["sdel %d" % k for k in range(1, d + 1)]
+    return " ".join(("S 1 a 1 S 2 a 2 M " + " ".join(main)).split())
+
+
+SCENARIOS = [scenario_owner_sweep] * 6 + [scenario_last_handle] * 3 + [scenario_blocked_transfers] * 3 + [scenario_deep_recursion]
 
 
 def scenarios(seed, count):
